@@ -339,7 +339,15 @@ impl TextSelection {
         let begin = Cursor::BeginAligned(
             self.begin()
                 + match offset.begin {
-                    Cursor::BeginAligned(x) => x,
+                    Cursor::BeginAligned(x) => {
+                        if x > textlen {
+                            return Err(StamError::CursorOutOfBounds(
+                                offset.begin,
+                                "(textselection_by_offset)",
+                            ));
+                        }
+                        x
+                    }
                     Cursor::EndAligned(x) => {
                         if textlen < x.abs() as usize {
                             return Err(StamError::CursorOutOfBounds(
@@ -355,7 +363,15 @@ impl TextSelection {
         let end = Cursor::BeginAligned(
             self.begin()
                 + match offset.end {
-                    Cursor::BeginAligned(x) => x,
+                    Cursor::BeginAligned(x) => {
+                        if x > textlen {
+                            return Err(StamError::CursorOutOfBounds(
+                                offset.end,
+                                "(textselection_by_offset)",
+                            ));
+                        }
+                        x
+                    }
                     Cursor::EndAligned(x) => {
                         if textlen < x.abs() as usize {
                             return Err(StamError::CursorOutOfBounds(
@@ -375,7 +391,16 @@ impl TextSelection {
     fn beginaligned_cursor(&self, cursor: &Cursor) -> Result<usize, StamError> {
         let textlen = self.end() - self.begin();
         match *cursor {
-            Cursor::BeginAligned(cursor) => Ok(cursor),
+            Cursor::BeginAligned(cursor) => {
+                if cursor > textlen {
+                    Err(StamError::CursorOutOfBounds(
+                        Cursor::BeginAligned(cursor),
+                        "TextSelection::beginaligned_cursor(): begin aligned cursor ends up past the end",
+                    ))
+                } else {
+                    Ok(cursor)
+                }
+            }
             Cursor::EndAligned(cursor) => {
                 if cursor.abs() as usize > textlen {
                     Err(StamError::CursorOutOfBounds(
@@ -396,6 +421,13 @@ impl TextSelection {
             self.begin + self.beginaligned_cursor(&offset.begin)?,
             self.begin + self.beginaligned_cursor(&offset.end)?,
         );
+        if end < begin {
+            return Err(StamError::InvalidOffset(
+                offset.begin,
+                offset.end,
+                "End must be greater than begin",
+            ));
+        }
         Ok(TextSelection {
             intid: None,
             begin,
